@@ -55,11 +55,58 @@ func dkgScenarios(run *mon.Run, nQual, nJF int) []sim.Scenario {
 		}
 		return sc
 	}
+	out = append(out, dkgDirected(run)...)
 	for i := 0; i < nQual; i++ {
 		out = append(out, mk(sim.FVSSQ, i))
 	}
 	for i := 0; i < nJF; i++ {
 		out = append(out, mk(sim.JF, i))
+	}
+	return out
+}
+
+// dkgDirected is the directed grid around one honest victim of one Byzantine dealer: every combination
+// of what happens to the victim's share, when the vector is sent, an unsolicited answer, a broadcast that
+// disqualifies the dealer afterwards, a late share and the way complaints are answered. Quick runs a
+// seed-chosen third of the grid once; thorough runs all of it under four delivery orders.
+func dkgDirected(run *mon.Run) []sim.Scenario {
+	r := run.Rand("directed")
+	shares := []string{"pass", "drop", "delay", "subst", "mangle:plus1", "dup"}
+	vectors := []string{"pass", "hold"}
+	earlies := []string{"none", "early-answer-valid@1", "early-answer-wrong@1", "early-answer-valid@2"}
+	disqs := []string{"none", "empty-bcast@1", "empty-bcast@2", "unknown-tag@3", "second-vector-diff@1"}
+	lates := []string{"none", "late-share@2", "late-share-wrong@2", "late-share-wrong@3"}
+	answers := []string{"pass", "drop", "mangle:share-plus1"}
+	sizes := [][2]int{{3, 1}, {4, 2}, {5, 2}, {4, 1}}
+	var out []sim.Scenario
+	k := 0
+	orders := run.Pick(1, 4)
+	for _, p := range []sim.Proto{sim.FVSSQ, sim.JF} {
+		for _, sh := range shares {
+			for _, ve := range vectors {
+				for _, ea := range earlies {
+					for _, dq := range disqs {
+						for _, la := range lates {
+							for _, an := range answers {
+								k++
+								if run.Quick() && r.IntN(3) != 0 {
+									continue
+								}
+								for o := 0; o < orders; o++ {
+									g := sizes[(k+o)%len(sizes)]
+									n := g[0]
+									b := r.IntN(n)
+									victim := (b + 1 + r.IntN(n-1)) % n
+									rec := fmt.Sprintf("victim=%d;share=%s;vector=%s;answer=%s;inj=%s,%s,%s", victim, sh, ve, an, ea, dq, la)
+									sc := sim.Scenario{Seed: uint64(run.Seed)<<32 ^ uint64(k*8+o)*0x9e3779b97f4a7c15 ^ uint64(p)<<61 ^ 0xd1, Proto: p, N: n, T: g[1], Byz: []int{b}, Dealer: b, Recipe: rec}
+									out = append(out, sc)
+								}
+							}
+						}
+					}
+				}
+			}
+		}
 	}
 	return out
 }
